@@ -275,7 +275,12 @@ def gen_args(rng, cls, wrong=False):
             kw.append('%r: %s' % (f['name'], v))
     if wrong:
         r = rng.random()
-        if r < 0.3:
+        if kw_only and init_fields and r < 0.5:
+            # one positional argument for a keyword-only __init__ (the count would fit)
+            f0 = init_fields[0]
+            args.append(rng.choice(VALUES[f0['type']]))
+            kw = [x for x in kw if not x.startswith(repr(f0['name']) + ':')]
+        elif r < 0.3:
             args.append('99')
             args.extend(['98'] * len(init_fields))
         elif r < 0.5:
